@@ -26,9 +26,11 @@ enum Sym {
     /// a non-diploid genotype in a later column than a missing one, in the same record
     PloidyAfterMissing,
     Corrupt,
+    /// a legal record without genotypes (FORMAT without a GT key, or no FORMAT field at all): nobody is called, so it is a skipped site
+    NoGt,
 }
 
-const ALPHABET: [Sym; 9] = [
+const ALPHABET: [Sym; 10] = [
     Sym::Counted,
     Sym::MissingP0,
     Sym::Multiallelic,
@@ -38,6 +40,7 @@ const ALPHABET: [Sym; 9] = [
     Sym::Ploidy,
     Sym::PloidyAfterMissing,
     Sym::Corrupt,
+    Sym::NoGt,
 ];
 
 impl Sym {
@@ -52,6 +55,7 @@ impl Sym {
             Sym::Ploidy => 'P',
             Sym::PloidyAfterMissing => 'Q',
             Sym::Corrupt => 'K',
+            Sym::NoGt => 'N',
         }
     }
     /// genotype classes of the 4 samples (s0,s1 in p0; s2,s3 in p1); None for failing symbols
@@ -64,6 +68,7 @@ impl Sym {
             Sym::ExactlySufficient => vec![G0, Missing, G1, Missing],
             Sym::InsufficientP0 => vec![Missing, Multi, G1, G2],
             Sym::InsufficientP1 => vec![G1, G0, Missing, Missing],
+            Sym::NoGt => vec![Missing, Missing, Missing, Missing],
             Sym::Ploidy | Sym::PloidyAfterMissing | Sym::Corrupt => return None,
         })
     }
@@ -99,11 +104,14 @@ fn site_name(i: usize, pos: Pos) -> (String, usize) {
 }
 
 fn vcf_for(stream: &[Sym], posn: Pos) -> String {
-    let mut s = String::from("##fileformat=VCFv4.3\n##FILTER=<ID=PASS,Description=\"All filters passed\">\n##contig=<ID=chr1,length=1000>\n##contig=<ID=chr2,length=1000>\n##FORMAT=<ID=GT,Number=1,Type=String,Description=\"Genotype\">\n#CHROM\tPOS\tID\tREF\tALT\tQUAL\tFILTER\tINFO\tFORMAT\ts0\ts1\ts2\ts3\n");
+    let mut s = String::from("##fileformat=VCFv4.3\n##FILTER=<ID=PASS,Description=\"All filters passed\">\n##contig=<ID=chr1,length=1000>\n##contig=<ID=chr2,length=1000>\n##FORMAT=<ID=GT,Number=1,Type=String,Description=\"Genotype\">\n##FORMAT=<ID=DP,Number=1,Type=Integer,Description=\"Depth\">\n#CHROM\tPOS\tID\tREF\tALT\tQUAL\tFILTER\tINFO\tFORMAT\ts0\ts1\ts2\ts3\n");
     for (i, sym) in stream.iter().enumerate() {
         let (chrom, pos) = site_name(i, posn);
         match sym {
             Sym::Corrupt => s.push_str(&format!("{chrom}\tnot-a-position\t.\tA\tC,G\t.\t.\t.\tGT\t0/0\t0/0\t0/0\t0/0\n")),
+            // at even stream positions FORMAT holds only DP, at odd ones the record has no FORMAT field at all
+            Sym::NoGt if i % 2 == 0 => s.push_str(&format!("{chrom}\t{pos}\t.\tA\tC,G\t.\t.\t.\tDP\t5\t7\t.\t12\n")),
+            Sym::NoGt => s.push_str(&format!("{chrom}\t{pos}\t.\tA\tC,G\t.\t.\t.\t.\t.\t.\t.\t.\n")),
             Sym::Ploidy => s.push_str(&format!("{chrom}\t{pos}\t.\tA\tC,G\t.\t.\t.\tGT\t0/1\t0\t0/0\t0/0\n")),
             Sym::PloidyAfterMissing => s.push_str(&format!("{chrom}\t{pos}\t.\tA\tC,G\t.\t.\t.\tGT\t./.\t0/1\t0/1/1\t1/2\n")),
             other => {
@@ -164,6 +172,7 @@ fn bcf_for(stream: &[Sym]) -> Vec<u8> {
     for (i, sym) in stream.iter().enumerate() {
         let gts: Vec<String> = match sym {
             Sym::Corrupt => unreachable!("no corrupt records in BCF streams"),
+            Sym::NoGt => vec![if i % 2 == 0 { crate::gen::NO_GT_KEY } else { crate::gen::NO_FORMAT }.to_string(); 4],
             Sym::Ploidy => vec!["0/1".into(), "0".into(), "0/0".into(), "0/0".into()],
             Sym::PloidyAfterMissing => vec!["./.".into(), "0/1".into(), "0/1/1".into(), "1/2".into()],
             other => other.classes(i).unwrap().iter().enumerate().map(|(j, c)| c.spell(i + j).to_string()).collect(),
@@ -317,7 +326,7 @@ fn parse_stream(s: &str) -> Option<Vec<Sym>> {
 
 pub fn run(tier: Tier) -> i32 {
     let mut rep = Report::new("C10", tier, "model_checking");
-    rep.rule = "record streams over the alphabet {counted, missing-in-p0 (projectable), multiallelic, exactly-sufficient, insufficient-in-p0, insufficient-in-p1, ploidy-error, ploidy-error-after-a-missing-sample, corrupt-line} for 4 samples in 2 populations; all streams of length 0..3 (thorough 0..4) plus all length-4 (thorough length-5) streams over a reduced 5-symbol alphabet; x modes {default, --strict, --project-shape 3,3} x positions {pairwise different, all records at one contig:position} and, for streams without a corrupt line, the same stream as BCF whose header lists the contigs against their IDX order; each executed on the real binary. Oracle: reference create; mass + reported skipped = records; Y of 'Skipped X/Y' = records; failure at the first failing record in input order, naming its contig:position for skips and ploidy errors; failing runs write nothing to stdout; a strict run without failing record equals the default run. states = distinct (stream prefix) histories, transitions = records fed to the binary. Non-trivial = a stream containing both a counted record and a skipped/failing one.".into();
+    rep.rule = "record streams over the alphabet {counted, missing-in-p0 (projectable), multiallelic, exactly-sufficient, insufficient-in-p0, insufficient-in-p1, ploidy-error, ploidy-error-after-a-missing-sample, corrupt-line, record-without-GT} for 4 samples in 2 populations; all streams of length 0..3 (thorough 0..4) plus all length-4 (thorough length-5) streams over a reduced 5-symbol alphabet; x modes {default, --strict, --project-shape 3,3} x positions {pairwise different, all records at one contig:position} and, for streams without a corrupt line, the same stream as BCF whose header lists the contigs against their IDX order; each executed on the real binary. Oracle: reference create; mass + reported skipped = records; Y of 'Skipped X/Y' = records; failure at the first failing record in input order, naming its contig:position for skips and ploidy errors; failing runs write nothing to stdout; a strict run without failing record equals the default run. states = distinct (stream prefix) histories, transitions = records fed to the binary. Non-trivial = a stream containing both a counted record and a skipped/failing one.".into();
 
     let full_len = tier.pick(3, 4);
     let mut streams: Vec<Vec<Sym>> = sequences(ALPHABET.len(), 0, full_len)
@@ -369,10 +378,58 @@ pub fn run(tier: Tier) -> i32 {
         name: "cli: record streams x modes".into(),
         evaluations: jobs.len() as u64,
         nontrivial: nt,
-        note: format!("{} streams (all of length 0..{full_len} over 9 symbols + length {extra_len} over 5 symbols) x 3 modes; streams of length 2..{full_len} additionally with every record at the same contig:position, and as BCF with permuted contig header lines", streams.len()),
+        note: format!("{} streams (all of length 0..{full_len} over 10 symbols + length {extra_len} over 5 symbols) x 3 modes; streams of length 2..{full_len} additionally with every record at the same contig:position, and as BCF with permuted contig header lines", streams.len()),
         exhaustive: true,
         extra: vec![("depth_bound".into(), J::u(extra_len))],
     });
+    // verbosity: what is logged must change neither the exit status nor stdout (in particular the
+    // strict-mode failure must not depend on whether the skipped site would be logged)
+    {
+        let short: Vec<usize> = (0..streams.len()).filter(|&i| streams[i].len() <= 2).collect();
+        let flags = ["-q", "-qq", "-v", "-vv"];
+        let mut vj: Vec<(usize, Mode, usize)> = Vec::new();
+        for &i in &short {
+            for m in modes {
+                for f in 0..flags.len() {
+                    vj.push((i, m, f));
+                }
+            }
+        }
+        let res = par_map(vj.len(), |j| {
+            let (i, m, f) = vj[j];
+            let st = &streams[i];
+            let vcf = vcf_for(st, Pos::Unique);
+            let mut args = vec!["create", "-s", SAMPLES];
+            match m {
+                Mode::Default => {}
+                Mode::Strict => args.push("--strict"),
+                Mode::Project => args.extend(["--project-shape", "3,3", "--precision", "9"]),
+            }
+            let base = run_sfs(&args, Stdin::Bytes(vcf.as_bytes()), &scratch);
+            args.push(flags[f]);
+            let o = run_sfs(&args, Stdin::Bytes(vcf.as_bytes()), &scratch);
+            if o.ok() == base.ok() && o.stdout == base.stdout && (o.ok() || o.diagnosed_error()) {
+                None
+            } else {
+                Some((
+                    format!("C10|cli|verbosity-changes-result|{m:?}|{}", flags[f]),
+                    format!("stream {} in mode {m:?}: with {} the run gives {} stdout {:?}; without it {} stdout {:?}", stream_str(st), flags[f], o.status_str(), o.stdout_str(), base.status_str(), base.stdout_str()),
+                    J::obj([("kind", J::s("c10-verbosity")), ("stream", J::s(stream_str(st))), ("mode", J::s(format!("{m:?}"))), ("flag", J::s(flags[f]))]),
+                ))
+            }
+        });
+        for v in res.into_iter().flatten() {
+            rep.violation(v.0, v.1, v.2);
+        }
+        rep.part(Part {
+            name: "cli: verbosity flags".into(),
+            evaluations: vj.len() as u64,
+            nontrivial: vj.len() as u64,
+            note: format!("{} streams of length <= 2 x 3 modes x {{-q, -qq, -v, -vv}}: same success / failure and byte-identical stdout as at default verbosity", short.len()),
+            exhaustive: true,
+            extra: vec![],
+        });
+    }
     // cohorts of a hundred and more samples: every counted record still weighs exactly one
     {
         let mut cj: Vec<(usize, usize)> = Vec::new();
@@ -413,6 +470,22 @@ pub fn run(tier: Tier) -> i32 {
 }
 
 pub fn replay(case: &J) -> Option<Vec<String>> {
+    if case.get("kind").and_then(|k| k.as_str()) == Some("c10-verbosity") {
+        let st = parse_stream(case.get("stream")?.as_str()?)?;
+        let flag = case.get("flag")?.as_str()?.to_string();
+        let scratch = Scratch::new("c10r");
+        let vcf = vcf_for(&st, Pos::Unique);
+        let mut args = vec!["create", "-s", SAMPLES];
+        match case.get("mode")?.as_str()? {
+            "Strict" => args.push("--strict"),
+            "Project" => args.extend(["--project-shape", "3,3", "--precision", "9"]),
+            _ => {}
+        }
+        let base = run_sfs(&args, Stdin::Bytes(vcf.as_bytes()), &scratch);
+        args.push(&flag);
+        let o = run_sfs(&args, Stdin::Bytes(vcf.as_bytes()), &scratch);
+        return Some(if o.ok() == base.ok() && o.stdout == base.stdout { vec![] } else { vec![format!("C10|cli|verbosity-changes-result :: with {flag}: {} {:?}; without: {} {:?}", o.status_str(), o.stdout_str(), base.status_str(), base.stdout_str())] });
+    }
     if case.get("kind").and_then(|k| k.as_str()) == Some("c10-cohort") {
         let scratch = Scratch::new("c10r");
         return Some(eval_cohort(case.get("samples")?.as_i64()? as usize, case.get("individuals")?.as_i64()? as usize, &scratch).into_iter().map(|(k, w, _)| format!("{k} :: {w}")).collect());
